@@ -9,11 +9,11 @@
 //   obj <lin> | mode max|min | dims <m> | ints <k> <i>*
 //   solve | issat | fpoint | opoint | oval | eval <pt>
 //   <lin> = <n> <b> <a0> .. <a_{n-1}>     <con> = (=|>=) <lin>     <pt> = <n> <den> <c0> .. <c_{n-1}>
-// For every command three lines are printed:
+// For every command four lines are printed (b, r, s, f):
 //   r ...   the value returned / exception raised by the call on the INCREMENTAL object
-//   s <status keyword from ascii_dump> <last_generator as pt> ok <OK()> ncs <input_cs.size()> risk <0|1> lgd <last_generator.space_dimension()>
-//       risk (about the state the command STARTED from): some pending inequality is satisfied by last_generator but
-//       violated by the basic solution of the tableau, i.e. parse_constraints() is about to classify it "already satisfied"
+//   s <status keyword from ascii_dump> <last_generator as pt> ok <OK()> ncs <input_cs.size()> lgd <last_generator.space_dimension()>
+//   (and, before them:  b risk <0|1>  about the state the command STARTS from: some pending inequality is satisfied by
+//    last_generator but violated by the basic solution the first phase starts from, see compute_risk)
 //   f ...   what two FRESH objects built from the data accumulated so far answer
 //           (solve + optimal value + optimizing point ; is_satisfiable + feasible_point)
 #define VH_PRIVATE_ACCESS
@@ -74,21 +74,31 @@ static std::string keyword(const MIP_Problem& p) {
   i += 9; size_t j = s.find('\n', i); return s.substr(i, j - i);
 }
 
-// root-cause probe for known finding C06-stale-last-generator (see known_findings.d/C06.json)
-static int risk_before = 0;
+// root-cause probe for known finding C06-stale-last-generator (see known_findings.d/C06.json):
+// parse_constraints() is about to classify a pending inequality "already satisfied" by evaluating it at
+// last_generator, although the basic solution from which the first phase will start violates it.  That basic
+// solution is recomputed here on a COPY: merge the split variables that the pending constraints make
+// remergeable (as process_pending_constraints does), then read the tableau (compute_generator).
 static int compute_risk() {
   if (!mip || !mip->initialized || mip->status != MIP_Problem::PARTIALLY_SATISFIABLE) return 0;
   if (mip->internal_space_dim == 0 || mip->mapping.size() != mip->internal_space_dim + 1) return 0;
   if (mip->first_pending_constraint >= mip->input_cs.size()) return 0;
   try {
-    MIP_Problem cp(*mip);                       // copies tableau, base, mapping
+    MIP_Problem cp(*mip);                       // copies tableau, base, mapping, last_generator; re-adds the constraints
+    cp.first_pending_constraint = mip->first_pending_constraint;
+    dimension_type rows = 0, slacks = 0;
+    std::deque<bool> is_tab, is_sat, is_nonneg, is_remerge;
+    if (!cp.parse_constraints(rows, slacks, is_tab, is_sat, is_nonneg, is_remerge)) return 0;
+    for (dimension_type i = cp.internal_space_dim; i-- > 0; )
+      if (is_remerge[i]) cp.merge_split_variable(i);
+    const Generator claimed = cp.last_generator;
     cp.external_space_dim = cp.internal_space_dim;
-    cp.compute_generator();                     // basic solution of the tableau, as a point of the internal space
+    cp.compute_generator();                     // the basic solution, as a point of the internal space
     const Generator& vertex = cp.last_generator;
-    for (dimension_type i = mip->first_pending_constraint; i < mip->input_cs.size(); ++i) {
-      const Constraint& c = *mip->input_cs[i];
-      if (!c.is_inequality() || c.space_dimension() > mip->internal_space_dim) continue;
-      if (MIP_Problem::is_satisfied(c, mip->last_generator) && !MIP_Problem::is_satisfied(c, vertex)) return 1;
+    for (dimension_type i = 0; i < is_sat.size(); ++i) {
+      if (!is_sat[i]) continue;
+      const Constraint& c = *cp.input_cs[cp.first_pending_constraint + i];
+      if (MIP_Problem::is_satisfied(c, claimed) && !MIP_Problem::is_satisfied(c, vertex)) return 1;
     }
   } catch (const std::exception&) { return 0; }
   return 0;
@@ -96,7 +106,7 @@ static int compute_risk() {
 static void print_state() {
   std::cout << "s " << keyword(*mip) << " "; print_pt(std::cout, mip->last_generator, mip->space_dimension());
   int ok; try { ok = mip->OK() ? 1 : 0; } catch (const std::exception&) { ok = 2; }   // 2: OK() itself threw
-  std::cout << " ok " << ok << " ncs " << mip->input_cs.size() << " risk " << risk_before << " lgd " << mip->last_generator.space_dimension() << std::endl;
+  std::cout << " ok " << ok << " ncs " << mip->input_cs.size() << " lgd " << mip->last_generator.space_dimension() << std::endl;
 }
 static void print_fresh() {
   std::cout << "f solve ";
@@ -163,7 +173,7 @@ int main(int argc, char** argv) {
       else if (cmd == "end") { std::cout << "end\n"; }
       else {
         arm(tmo);
-        risk_before = compute_risk();
+        std::cout << "b risk " << ((cmd == "new" || cmd == "newfull") ? 0 : compute_risk()) << std::endl;
         try { step(cmd, tk); std::cout.flush(); }
         catch (const std::exception& e) {
           if (std::string(e.what()).substr(0, 5) == "case:") throw;
